@@ -20,7 +20,7 @@ _rev = ["len(r) == len(s)", "0 <= idx", "idx < len(s)", "r[0] == -s[idx]",
         "forall(lambda j: implies(1 <= j and j <= idx, r[j] == s[j - 1] - s[idx]))",
         "forall(lambda j: implies(idx < j and j < len(r), r[j] == s[j] - s[idx]))"]
 
-contract(F, "lemma_quotient_link", props=["C10"], lemma=True,
+contract(F, "lemma_quotient_link", props=["C10", "C02"], lemma=True,
          params={"mins": Seq(Int), "s": Seq(Int), "r": Seq(Int), "idx": Int, "pshift": Int},
          requires=["len(s) == len(mins)",
                    "forall(lambda c: implies(0 <= c and c < len(s), s[c] == sum(mins) - mins[c]))",
@@ -30,7 +30,7 @@ contract(F, "lemma_quotient_link", props=["C10"], lemma=True,
                   "forall(lambda j: implies(idx < j and j < len(r), r[j] == mins[idx] - mins[j]))"],
          notes="links Quotient's provider discipline to ReverseRule.shifts() of a CartesianProductStrategy rule")
 
-contract(F, "lemma_union_link", props=["C10"], lemma=True,
+contract(F, "lemma_union_link", props=["C10", "C02"], lemma=True,
          params={"s": Seq(Int), "r": Seq(Int), "idx": Int},
          requires=["forall(lambda c: implies(0 <= c and c < len(s), s[c] == 0))"] + _rev,
          ensures=["r[0] == 0", "forall(lambda j: implies(1 <= j and j <= idx, r[j] == 0))",
